@@ -157,7 +157,8 @@ def mkInit (c : Cfg) : St :=
     started := p,
     written := preMsgs p,
     know := fun _ => preMsgs p,
-    relCursor := preMsgs p }
+    relCursor := preMsgs p,
+    relSpin := preMsgs p }
 
 def isReader (c : Cfg) (t : Nat) : Bool := c.nW ≤ t && t < c.nT
 
@@ -277,14 +278,13 @@ def stepSt (c : Cfg) (s : St) (t : Nat) : Option St :=
     else some { s with pc := upd s.pc t (.rFwait v) }
   | .oRc2 => some { s with pc := upd s.pc t (.oSlot s.readCursor) }
   | .oSlot i =>
-    if i < c.cap then
-      let m := s.blocks i
-      some { s with got := upd s.got t (s.got t ++ [m]), delivered := s.delivered ++ [(m, t)],
-                    pc := upd s.pc t (.oRc3 m) }
-    else some { s with oob := s.oob + 1, got := upd s.got t (s.got t ++ [0]),
-                       delivered := s.delivered ++ [(0, t)], pc := upd s.pc t (.oRc3 0) }
+    if i < c.cap then some { s with pc := upd s.pc t (.oRc3 (s.blocks i)) }
+    else some { s with oob := s.oob + 1, pc := upd s.pc t (.oRc3 0) }
   | .oRc3 m => some { s with pc := upd s.pc t (.oWrRc m s.readCursor) }
-  | .oWrRc m i => some { s with readCursor := ringIdx (i + 1) c.cap, pc := upd s.pc t (.oUnlock m) }
+  | .oWrRc m i =>
+    -- the message is consumed when `read_cursor` moves on (still under `read_mutex`)
+    some { s with readCursor := ringIdx (i + 1) c.cap, got := upd s.got t (s.got t ++ [m]),
+                  delivered := s.delivered ++ [(m, t)], pc := upd s.pc t (.oUnlock m) }
   | .oUnlock m => some (finishRead c { s with rmtx := 0, relMtx := s.know t } t m)
   | .rBlocked => none
   | .done => none
